@@ -331,6 +331,34 @@ type SortedSetParam struct {
 	Weight float64
 }
 
+// weightedScore multiplies a score by the weight of its sorted set.
+// inf * 0 is not a number; it counts as 0 so that a score is never NaN.
+func weightedScore(score Score, weight float64) Score {
+	res := score * Score(weight)
+	if math.IsNaN(float64(res)) {
+		return 0
+	}
+	return res
+}
+
+// aggregateScores combines two weighted scores of the same member.
+// +inf + -inf is not a number; it counts as 0 so that a score is never NaN.
+func aggregateScores(aggregate string, left, right Score) Score {
+	switch aggregate {
+	case "sum":
+		res := left + right
+		if math.IsNaN(float64(res)) {
+			return 0
+		}
+		return res
+	case "min":
+		return compareScores(left, right, "lt")
+	default:
+		// Aggregate is "max"
+		return compareScores(left, right, "gt")
+	}
+}
+
 // Union uses divided & conquer to calculate the union of multiple sets
 func Union(aggregate string, setParams ...SortedSetParam) *SortedSet {
 	switch len(setParams) {
@@ -341,7 +369,7 @@ func Union(aggregate string, setParams ...SortedSetParam) *SortedSet {
 		for _, member := range setParams[0].Set.GetAll() {
 			params = append(params, MemberParam{
 				Value: member.Value,
-				Score: member.Score * Score(setParams[0].Weight),
+				Score: weightedScore(member.Score, setParams[0].Weight),
 			})
 		}
 		return NewSortedSet(params)
@@ -353,27 +381,16 @@ func Union(aggregate string, setParams ...SortedSetParam) *SortedSet {
 			if !setParams[1].Set.Contains(member.Value) {
 				params = append(params, MemberParam{
 					Value: member.Value,
-					Score: member.Score * Score(setParams[0].Weight),
+					Score: weightedScore(member.Score, setParams[0].Weight),
 				})
 				continue
 			}
 			// If the member Exists, get both elements and apply the Weight
 			param := MemberParam{
 				Value: member.Value,
-				Score: func(left, right Score) Score {
-					// Choose which param to add to params depending on the aggregate
-					switch aggregate {
-					case "sum":
-						return left + right
-					case "min":
-						return compareScores(left, right, "lt")
-					default:
-						// Aggregate is "max"
-						return compareScores(left, right, "gt")
-					}
-				}(
-					member.Score*Score(setParams[0].Weight),
-					setParams[1].Set.Get(member.Value).Score*Score(setParams[1].Weight),
+				Score: aggregateScores(aggregate,
+					weightedScore(member.Score, setParams[0].Weight),
+					weightedScore(setParams[1].Set.Get(member.Value).Score, setParams[1].Weight),
 				),
 			}
 			params = append(params, param)
@@ -386,7 +403,7 @@ func Union(aggregate string, setParams ...SortedSetParam) *SortedSet {
 			}) {
 				params = append(params, MemberParam{
 					Value: member.Value,
-					Score: member.Score * Score(setParams[1].Weight),
+					Score: weightedScore(member.Score, setParams[1].Weight),
 				})
 			}
 		}
@@ -406,17 +423,7 @@ func Union(aggregate string, setParams ...SortedSetParam) *SortedSet {
 			}
 			params = append(params, MemberParam{
 				Value: member.Value,
-				Score: func(left, right Score) Score {
-					switch aggregate {
-					case "sum":
-						return left + right
-					case "min":
-						return compareScores(left, right, "lt")
-					default:
-						// Aggregate is "max"
-						return compareScores(left, right, "gt")
-					}
-				}(member.Score, right.Get(member.Value).Score),
+				Score: aggregateScores(aggregate, member.Score, right.Get(member.Value).Score),
 			})
 		}
 		// Traverse the right sub-Set and add any remaining elements to params
@@ -441,7 +448,7 @@ func Intersect(aggregate string, setParams ...SortedSetParam) *SortedSet {
 		for _, member := range setParams[0].Set.GetAll() {
 			params = append(params, MemberParam{
 				Value: member.Value,
-				Score: member.Score * Score(setParams[0].Weight),
+				Score: weightedScore(member.Score, setParams[0].Weight),
 			})
 		}
 		return NewSortedSet(params)
@@ -456,20 +463,9 @@ func Intersect(aggregate string, setParams ...SortedSetParam) *SortedSet {
 			// If the member Exists, get both elements and apply the Weight
 			param := MemberParam{
 				Value: member.Value,
-				Score: func(left, right Score) Score {
-					// Choose which param to add to params depending on the aggregate
-					switch aggregate {
-					case "sum":
-						return left + right
-					case "min":
-						return compareScores(left, right, "lt")
-					default:
-						// Aggregate is "max"
-						return compareScores(left, right, "gt")
-					}
-				}(
-					member.Score*Score(setParams[0].Weight),
-					setParams[1].Set.Get(member.Value).Score*Score(setParams[1].Weight),
+				Score: aggregateScores(aggregate,
+					weightedScore(member.Score, setParams[0].Weight),
+					weightedScore(setParams[1].Set.Get(member.Value).Score, setParams[1].Weight),
 				),
 			}
 			params = append(params, param)
@@ -487,17 +483,7 @@ func Intersect(aggregate string, setParams ...SortedSetParam) *SortedSet {
 			}
 			params = append(params, MemberParam{
 				Value: member.Value,
-				Score: func(left, right Score) Score {
-					switch aggregate {
-					case "sum":
-						return left + right
-					case "min":
-						return compareScores(left, right, "lt")
-					default:
-						// Aggregate is "max"
-						return compareScores(left, right, "gt")
-					}
-				}(member.Score, right.Get(member.Value).Score),
+				Score: aggregateScores(aggregate, member.Score, right.Get(member.Value).Score),
 			})
 		}
 
